@@ -719,6 +719,18 @@ func init() {
 			}
 			ruleFreshResults(c, w, tb, "R11.4", exp)
 			ruleNoConcurrencyPrimitives(c, w, "R11.5", fns)
+			if w.Cfg.Name == CfgNative.Name {
+				runControl(c, "R11.1", []string{"ControlWritesGlobal|write:otp.cache"}, func(sink *Check, cw *World) {
+					ctb := NewTB(cw)
+					ruleNoPkgState(sink, cw, ctb, NewEffects(ctb), "R11.1", cw.ModuleFuncs(OtpPath))
+				})
+				runControl(c, "R11.2", []string{"ControlLeaksPool|", "ControlUseAfterPut|"}, func(sink *Check, cw *World) {
+					rulePoolDiscipline(sink, cw, NewTB(cw), "R11.2", cw.ModuleFuncs(OtpPath))
+				})
+				runControl(c, "R11.3", []string{"controlView|"}, func(sink *Check, cw *World) {
+					ruleUnsafeView(sink, cw, NewTB(cw), "R11.3", cw.ModuleFuncs(OtpPath))
+				})
+			}
 			c.Floor("R11.1", 40)
 			c.Floor("R11.2", 2)
 			c.Floor("R11.3", 1)
